@@ -398,7 +398,7 @@ def binary_observe(ctx, harness, trimmer, progs, budget):
         cmd.append("src/a.thrift")
         try:
             pr = subprocess.run(cmd, cwd=d, stdout=subprocess.PIPE, stderr=subprocess.PIPE, text=True, errors="replace",
-                                timeout=60, env=ctx.env)
+                                timeout=900, env=ctx.env)
             rc, err = pr.returncode, (pr.stdout + pr.stderr)[-600:]
         except subprocess.TimeoutExpired:
             rc, err = -9, "timeout"
@@ -413,6 +413,8 @@ def binary_observe(ctx, harness, trimmer, progs, budget):
 
     with concurrent.futures.ThreadPoolExecutor(max_workers=vlib.NCPU) as ex:
         outs = list(ex.map(one, range(len(pick))))
+    if any(o[0] == -9 for o in outs):
+        raise vlib.MachineryError("the trimmer binary did not finish within 900 s (machine overloaded?)")
     lines = []
     for k, (rc, err, files, cmd) in enumerate(outs):
         lines.append({"id": k, "main": "a.thrift", "files": files if "a.thrift" in files else {"a.thrift": ""}, "args": {}})
@@ -541,8 +543,11 @@ def lab_phase(ctx, progs, rows, rejected, nprog):
         opts = ["package_prefix=labmod/g/%s" % c.id] + c.opts
         cmd = [lab.thriftgo, "-g", "go:%s" % ",".join(opts), "-o", out, "-r", "a.thrift"]
         c.cmd = cmd
-        pr = subprocess.run(cmd, cwd=idl_root, stdout=subprocess.PIPE, stderr=subprocess.PIPE, text=True,
-                            errors="replace", timeout=300, env=ctx.env)
+        try:
+            pr = subprocess.run(cmd, cwd=idl_root, stdout=subprocess.PIPE, stderr=subprocess.PIPE, text=True,
+                                errors="replace", timeout=900, env=ctx.env)
+        except subprocess.TimeoutExpired:
+            raise vlib.MachineryError("thriftgo did not finish within 900 s (machine overloaded?)")
         c.rc, c.stdout, c.stderr = pr.returncode, pr.stdout, pr.stderr
         for dp, _, fs in os.walk(out):
             for f in fs:
